@@ -3,6 +3,7 @@ package sym
 import (
 	"fmt"
 	"os"
+	"os/exec"
 	"path/filepath"
 	"strings"
 	"time"
@@ -22,11 +23,12 @@ type Loaded struct {
 
 const modulePath = "github.com/tikv/pd"
 
-// Load type-checks pkgPath (inside the module rooted at repo) together with the
-// harness files (overlaid into the package directory) and the zzvrf package
-// (overlaid as <repo>/pkg/zzvrf), and builds SSA for the whole program.
-func Load(repo, pkgPath string, harness []string, zzvrfDir string) (*Loaded, error) {
-	t0 := time.Now()
+// BuildOverlay computes the overlay shared by the symbolic run and the native
+// replay: harness files in the target package directory, the zzvrf tree as
+// <repo>/pkg/zzvrf, and patched copies of three clientv3 files (accessors for
+// Op.limit/leaseID; NewKV/NewLease return the in-memory model when the client
+// carries one). Nothing is written to /repo.
+func BuildOverlay(repo, pkgPath string, harness []string, zzvrfDir string) (map[string][]byte, error) {
 	overlay := map[string][]byte{}
 	rel := strings.TrimPrefix(pkgPath, modulePath)
 	pkgDir := filepath.Join(repo, rel)
@@ -40,18 +42,80 @@ func Load(repo, pkgPath string, harness []string, zzvrfDir string) (*Loaded, err
 		}
 		overlay[filepath.Join(pkgDir, "zz_verif_"+filepath.Base(h))] = data
 	}
-	ents, err := os.ReadDir(zzvrfDir)
+	err := filepath.Walk(zzvrfDir, func(p string, info os.FileInfo, err error) error {
+		if err != nil {
+			return err
+		}
+		if info.IsDir() || !strings.HasSuffix(p, ".go") {
+			return nil
+		}
+		data, err := os.ReadFile(p)
+		if err != nil {
+			return err
+		}
+		r, _ := filepath.Rel(zzvrfDir, p)
+		overlay[filepath.Join(repo, "pkg", "zzvrf", r)] = data
+		return nil
+	})
 	if err != nil {
 		return nil, err
 	}
-	for _, e := range ents {
-		if strings.HasSuffix(e.Name(), ".go") {
-			data, err := os.ReadFile(filepath.Join(zzvrfDir, e.Name()))
-			if err != nil {
-				return nil, err
-			}
-			overlay[filepath.Join(repo, "pkg", "zzvrf", e.Name())] = data
+	// clientv3 patches
+	cmd := exec.Command("go", "list", "-m", "-f", "{{.Dir}}", "go.etcd.io/etcd")
+	cmd.Dir = repo
+	cmd.Env = append(os.Environ(), "GOFLAGS=-mod=mod", "GOPROXY=off", "GOSUMDB=off", "GOTOOLCHAIN=local")
+	out, err := cmd.Output()
+	if err != nil {
+		return nil, fmt.Errorf("locating go.etcd.io/etcd: %v", err)
+	}
+	cdir := filepath.Join(strings.TrimSpace(string(out)), "clientv3")
+	patch := func(file string, f func(string) (string, error)) error {
+		data, err := os.ReadFile(filepath.Join(cdir, file))
+		if err != nil {
+			return err
 		}
+		res, err := f(string(data))
+		if err != nil {
+			return fmt.Errorf("patching clientv3/%s: %v", file, err)
+		}
+		overlay[filepath.Join(cdir, file)] = []byte(res)
+		return nil
+	}
+	if err := patch("op.go", func(s string) (string, error) {
+		return s + "\n// accessors appended by /verif (overlay only)\nfunc (op Op) VerifLimit() int64 { return op.limit }\nfunc (op Op) VerifLeaseID() LeaseID { return op.leaseID }\n", nil
+	}); err != nil {
+		return nil, err
+	}
+	if err := patch("kv.go", func(s string) (string, error) {
+		const sig = "func NewKV(c *Client) KV {"
+		if !strings.Contains(s, sig) {
+			return "", fmt.Errorf("NewKV not found")
+		}
+		s = strings.Replace(s, sig, "func verifOrigNewKV(c *Client) KV {", 1)
+		return s + "\n// appended by /verif (overlay only)\nfunc NewKV(c *Client) KV {\n\tif m, ok := c.KV.(interface{ VerifModel() bool }); ok && m.VerifModel() {\n\t\treturn c.KV\n\t}\n\treturn verifOrigNewKV(c)\n}\n", nil
+	}); err != nil {
+		return nil, err
+	}
+	if err := patch("lease.go", func(s string) (string, error) {
+		const sig = "func NewLease(c *Client) Lease {"
+		if !strings.Contains(s, sig) {
+			return "", fmt.Errorf("NewLease not found")
+		}
+		s = strings.Replace(s, sig, "func verifOrigNewLease(c *Client) Lease {", 1)
+		return s + "\n// appended by /verif (overlay only)\nfunc NewLease(c *Client) Lease {\n\tif m, ok := c.Lease.(interface{ VerifModel() bool }); ok && m.VerifModel() {\n\t\treturn c.Lease\n\t}\n\treturn verifOrigNewLease(c)\n}\n", nil
+	}); err != nil {
+		return nil, err
+	}
+	return overlay, nil
+}
+
+// Load type-checks pkgPath (inside the module rooted at repo) together with the
+// overlay of BuildOverlay and builds SSA for the whole program.
+func Load(repo, pkgPath string, harness []string, zzvrfDir string) (*Loaded, error) {
+	t0 := time.Now()
+	overlay, err := BuildOverlay(repo, pkgPath, harness, zzvrfDir)
+	if err != nil {
+		return nil, err
 	}
 	cfg := &packages.Config{
 		Mode:    packages.LoadAllSyntax,
